@@ -136,23 +136,42 @@ Print Assumptions C28_unmount_later_first.
    unmounts a parent before its child (KNOWN_FINDINGS key unmount-order-after-keep, notes/C28-fix.diff; monitored by
    the order driver with the true mount ages). *)
 
-(* mounts - PARTIAL. Full statement: among entries of the same origin no entry is mounted before an entry whose
-   directory contains it. Proved: the lexicographic lemma that makes the trailing-slash sort key put a directory before
-   everything beneath it, and that every entry that can be mounted where it is comes before every entry that first
-   needs a writable mimic. MISSING: that the two insertion sorts really order by that key (sortedness of isort for
-   less_origin) and the order between different mimic groups; the mount order is evaluated by the monitor on every
-   observed change list. *)
-Theorem C28_mount_order_key_partial : forall c p,
+(* mounts: among the Mount changes an entry comes before every entry of the same origin whose directory lies beneath
+   its own (parents before children). Hypotheses, all about the pair: the two trailing-slash sort keys differ (true for
+   distinct cleaned mount points); if the child's target exists in the form needed (or it is an overname entry) then so
+   does the parent's; the writable-mimic roots of the two are equal or ordered like strings. The last hypothesis is what
+   findFirstRootDirectoryThatExists gives on an oracle closed under ancestors (the child's root is the parent's root or
+   lies beneath it, and a proper path prefix is the smaller string); that implication is NOT proved here (it needs
+   filepath.Dir/Clean algebra), so it stays a hypothesis; the monitor evaluates the conclusion on every observed list.
+   The proof uses: insertion sort yields a sorted permutation for any strict weak order; byOriginAndMountPoint.Less is
+   rank (overname < other < layout) then key; the lexicographic lemma (C28_mount_order_key) that makes dir ++ "/" of a
+   directory smaller than that of everything beneath it. *)
+Theorem C28_mount_order : forall fs current desired m1 m2,
+  let nc := needed_changes fs current desired in
+  In (Mount, m1) nc -> In (Mount, m2) nc ->
+  x_origin m1 = x_origin m2 -> beneath m2 m1 = true -> with_slash (e_dir m1) <> with_slash (e_dir m2) ->
+  (is_overname m2 || exists_as fs m2 = true -> is_overname m1 || exists_as fs m1 = true) ->
+  (mimic_dir fs m1 = mimic_dir fs m2 \/ blt (mimic_dir fs m1) (mimic_dir fs m2) = true) ->
+  precedes (Mount, m1) (Mount, m2) nc.
+Proof. exact mount_parent_first. Qed.
+Print Assumptions C28_mount_order.
+
+(* the sort really sorts: in the output of the insertion sort a strictly smaller element comes first *)
+Theorem C28_sort_orders : forall l a b, In a l -> In b l -> less_origin a b = true -> precedes a b (isort less_origin l).
+Proof. exact (isort_precedes less_origin less_origin_asym less_origin_negtrans). Qed.
+Print Assumptions C28_sort_orders.
+
+Theorem C28_mount_order_key : forall c p,
   beneath c p = true -> with_slash (e_dir p) <> with_slash (e_dir c) -> dir_lt p c = true.
 Proof. exact beneath_dir_lt. Qed.
-Print Assumptions C28_mount_order_key_partial.
+Print Assumptions C28_mount_order_key.
 
-Theorem C28_mount_order_independent_first_partial : forall fs current desired m1 m2,
+Theorem C28_mount_order_independent_first : forall fs current desired m1 m2,
   In (Mount, m1) (needed_changes fs current desired) -> In (Mount, m2) (needed_changes fs current desired) ->
   is_overname m1 || exists_as fs m1 = true -> is_overname m2 || exists_as fs m2 = false ->
   precedes (Mount, m1) (Mount, m2) (needed_changes fs current desired).
 Proof. exact independent_before_mimic. Qed.
-Print Assumptions C28_mount_order_independent_first_partial.
+Print Assumptions C28_mount_order_independent_first.
 
 (* the mount list neither loses nor invents entries *)
 Theorem C28_mount_list_is_rearrangement : forall fs dnr x, In x (mount_order fs dnr) <-> In x dnr.
